@@ -20,6 +20,12 @@ PLAN = {
 }
 
 
+# second round (C, D): by default the seed's own property; neighbours are added by hand below
+for _p in range(1, 21):
+    for _x in "CD":
+        PLAN.setdefault(f"C{_p:02d}{_x}", f"C{_p:02d}")
+
+
 def first_lines(path, n=12):
     try:
         return "".join(open(path).readlines()[:n]).strip()
@@ -52,7 +58,7 @@ def run_seed(sid):
 
 
 def main():
-    ids = sys.argv[1:] or sorted(PLAN)
+    ids = sys.argv[1:] or sorted(i for i in PLAN if os.path.isdir(os.path.join(SEEDED, i)))
     out = {}
     with concurrent.futures.ThreadPoolExecutor(max_workers=5) as ex:
         for sid, res in ex.map(run_seed, ids):
@@ -78,6 +84,8 @@ def main():
     # summary over all metas
     rows = []
     for sid in sorted(PLAN):
+        if not os.path.isdir(os.path.join(SEEDED, sid)):
+            continue
         mp = os.path.join(SEEDED, sid, "meta.json")
         if os.path.exists(mp):
             det = json.load(open(mp)).get("detection", {})
